@@ -1,5 +1,5 @@
 /-
-  Helper lemmas for property C18 (fragment splitting helpers). Property theorems: Tranp/Props/C18.lean.
+  Helper lemmas for property C18 (fragment splitting helpers), part 1: skip, break_separator, break_last_block, decorator, parameter. Property theorems: Tranp/Props/C18.lean.
 -/
 import Tranp.Model.Block
 
@@ -34,7 +34,7 @@ theorem classify_open (k : BK) : classify allPairs k.open = .opener k.close := b
 theorem classify_close (k : BK) : classify allPairs k.close = .closer := by cases k <;> decide
 theorem classify_quote (q : QK) : classify allPairs q.ch = .opener q.ch := by cases q <;> decide
 
-/-! ### `skipStep` on the characters of a clean fragment -/
+/-! ### `skipStep` on the characters of a fragment -/
 
 /-- a stack that holds closers of bracket groups only -/
 abbrev closers (ks : List BK) : List Char := ks.map BK.close
@@ -52,13 +52,20 @@ theorem head_closers_ne_quote (ks : List BK) (q : QK) : (closers ks).head? ≠ s
   | nil => simp
   | cons k' ks => simp [close_ne_quote]
 
+theorem head_closers_not_quote (ks : List BK) : ((closers ks).head?.map isQuoteChar).getD false = false := by
+  cases ks with
+  | nil => rfl
+  | cons k ks => cases k <;> rfl
+
+theorem quote_isQuoteChar (q : QK) : isQuoteChar q.ch = true := by cases q <;> rfl
+
 theorem skipStep_plain (st : List Char) (c : Char) (h : has Frag.special c = false) :
     skipStep allPairs st c = st := by
   simp [skipStep, classify_special c h]
 
 theorem skipStep_open (ks : List BK) (k : BK) :
     skipStep allPairs (closers ks) k.open = closers (k :: ks) := by
-  simp only [skipStep, classify_open, if_neg (head_closers_ne_open ks k)]
+  simp only [skipStep, classify_open, if_neg (head_closers_ne_open ks k), head_closers_not_quote]
   rfl
 
 theorem skipStep_close (st : List Char) (k : BK) : skipStep allPairs (k.close :: st) k.close = st := by
@@ -66,43 +73,52 @@ theorem skipStep_close (st : List Char) (k : BK) : skipStep allPairs (k.close ::
 
 theorem skipStep_quote_push (ks : List BK) (q : QK) :
     skipStep allPairs (closers ks) q.ch = q.ch :: closers ks := by
-  simp only [skipStep, classify_quote, if_neg (head_closers_ne_quote ks q)]
+  simp only [skipStep, classify_quote, if_neg (head_closers_ne_quote ks q), head_closers_not_quote]
+  rfl
 
 theorem skipStep_quote_pop (st : List Char) (q : QK) : skipStep allPairs (q.ch :: st) q.ch = st := by
   simp [skipStep, classify_quote]
 
-/-! ### destructuring `Clean` -/
+/-- inside a string (its quote on top of the stack) every character except that quote leaves the stack alone -/
+theorem skipStep_in_string (toks : List (Char × Char)) (st : List Char) (q : QK) (c : Char) (hc : c ≠ q.ch) :
+    skipStep toks (q.ch :: st) c = q.ch :: st := by
+  unfold skipStep
+  split
+  · rfl
+  · have : ¬ (some q.ch = some c) := fun h => hc (Option.some.inj h).symm
+    simp [this, quote_isQuoteChar]
 
-@[simp] theorem clean_nil : Frag.Clean .nil := by simp [Frag.Clean, Frag.wf]
+/-! ### destructuring `Simple` -/
 
-@[simp] theorem clean_atom (c : Char) (r : Frag) :
-    Frag.Clean (.atom c r) ↔ has Frag.special c = false ∧ Frag.Clean r := by
-  simp [Frag.Clean, Frag.wf]
+@[simp] theorem simple_nil : Frag.Simple .nil := by simp [Frag.Simple, Frag.wf]
 
-@[simp] theorem clean_str (q : QK) (b : Str) (r : Frag) :
-    Frag.Clean (.str q b r) ↔ (∀ c ∈ b, c ≠ q.ch ∧ has Frag.special c = false) ∧ Frag.Clean r := by
-  simp [Frag.Clean, Frag.wf]
+@[simp] theorem simple_atom (c : Char) (r : Frag) :
+    Frag.Simple (.atom c r) ↔ has Frag.special c = false ∧ Frag.Simple r := by
+  simp [Frag.Simple, Frag.wf]
 
-@[simp] theorem clean_group (k : BK) (i r : Frag) :
-    Frag.Clean (.group k i r) ↔ Frag.Clean i ∧ Frag.Clean r := by
-  simp [Frag.Clean, Frag.wf]
+@[simp] theorem simple_str (q : QK) (b : Str) (r : Frag) :
+    Frag.Simple (.str q b r) ↔ (∀ c ∈ b, c ≠ q.ch) ∧ Frag.Simple r := by
+  simp [Frag.Simple, Frag.wf]
 
-/-! ### `skipLen` across clean fragments -/
+@[simp] theorem simple_group (k : BK) (i r : Frag) :
+    Frag.Simple (.group k i r) ↔ Frag.Simple i ∧ Frag.Simple r := by
+  simp [Frag.Simple, Frag.wf]
+
+/-! ### `skipLen` across fragments -/
 
 theorem skipLen_cons (toks : List (Char × Char)) (st : List Char) (c : Char) (cs : Str) :
     skipLen toks st (c :: cs) =
       if (skipStep toks st c).isEmpty then 1 else 1 + skipLen toks (skipStep toks st c) cs := rfl
 
-theorem skipLen_body (st : List Char) (hst : st ≠ []) (b rest : Str)
-    (hb : ∀ c ∈ b, has Frag.special c = false) :
-    skipLen allPairs st (b ++ rest) = b.length + skipLen allPairs st rest := by
+theorem skipLen_body (q : QK) (st : List Char) (b rest : Str) (hb : ∀ c ∈ b, c ≠ q.ch) :
+    skipLen allPairs (q.ch :: st) (b ++ rest) = b.length + skipLen allPairs (q.ch :: st) rest := by
   induction b with
   | nil => simp
   | cons c b ih =>
     have hc := hb c (by simp)
-    have hb' : ∀ c ∈ b, has Frag.special c = false := fun c hc => hb c (by simp [hc])
-    simp only [List.cons_append, skipLen_cons, skipStep_plain st c hc, List.isEmpty_iff, hst, if_false,
-      ih hb', List.length_cons]
+    have hb' : ∀ c ∈ b, c ≠ q.ch := fun c hc => hb c (by simp [hc])
+    simp only [List.cons_append, skipLen_cons, skipStep_in_string allPairs st q c hc, List.isEmpty_cons,
+      Bool.false_eq_true, if_false, ih hb', List.length_cons]
     omega
 
 theorem closers_ne_nil {ks : List BK} (h : ks ≠ []) : closers ks ≠ [] := by
@@ -110,29 +126,27 @@ theorem closers_ne_nil {ks : List BK} (h : ks ≠ []) : closers ks ≠ [] := by
   | nil => exact absurd rfl h
   | cons k ks => simp
 
-/-- Inside a skip (non-empty stack of group closers) a clean fragment is consumed completely and leaves the stack as it was. -/
-theorem skipLen_frag (f : Frag) : ∀ (ks : List BK) (rest : Str), ks ≠ [] → Frag.Clean f →
+/-- Inside a skip (non-empty stack of group closers) a fragment (simple strings with any content) is consumed completely and leaves the stack as it was. -/
+theorem skipLen_frag (f : Frag) : ∀ (ks : List BK) (rest : Str), ks ≠ [] → Frag.Simple f →
     skipLen allPairs (closers ks) (f.render ++ rest) = f.render.length + skipLen allPairs (closers ks) rest := by
   induction f with
   | nil => intro ks rest _ _; simp [Frag.render]
   | atom c r ih =>
     intro ks rest hks hc
-    rw [clean_atom] at hc
+    rw [simple_atom] at hc
     simp only [Frag.render, List.cons_append, skipLen_cons, skipStep_plain _ c hc.1, List.isEmpty_iff,
       closers_ne_nil hks, if_false, ih ks rest hks hc.2, List.length_cons]
     omega
   | str q b r ih =>
     intro ks rest hks hc
-    rw [clean_str] at hc
-    have hb : ∀ c ∈ b, has Frag.special c = false := fun c h => (hc.1 c h).2
-    have h1 : q.ch :: closers ks ≠ [] := by simp
+    rw [simple_str] at hc
     simp only [Frag.render, List.cons_append, List.append_assoc, skipLen_cons, skipStep_quote_push,
-      List.isEmpty_cons, Bool.false_eq_true, if_false, skipLen_body _ h1 b _ hb, skipStep_quote_pop,
+      List.isEmpty_cons, Bool.false_eq_true, if_false, skipLen_body q _ b _ hc.1, skipStep_quote_pop,
       List.isEmpty_iff, closers_ne_nil hks, ih ks rest hks hc.2, List.length_cons, List.length_append]
     omega
   | group k i r ihi ihr =>
     intro ks rest hks hc
-    rw [clean_group] at hc
+    rw [simple_group] at hc
     have h1 : k :: ks ≠ [] := by simp
     have h2 : closers (k :: ks) = k.close :: closers ks := rfl
     simp only [Frag.render, List.cons_append, List.append_assoc, skipLen_cons, skipStep_open,
@@ -142,8 +156,8 @@ theorem skipLen_frag (f : Frag) : ∀ (ks : List BK) (rest : Str), ks ≠ [] →
       List.length_append]
     omega
 
-/-- `_skip_other_block` started on the opening bracket of a clean group stops right behind its closing bracket. -/
-theorem skipLen_group (k : BK) (i : Frag) (rest : Str) (hi : Frag.Clean i) :
+/-- `_skip_other_block` started on the opening bracket of a group stops right behind its closing bracket. -/
+theorem skipLen_group (k : BK) (i : Frag) (rest : Str) (hi : Frag.Simple i) :
     skipLen allPairs [] (k.open :: (i.render ++ k.close :: rest)) = i.render.length + 2 := by
   have h0 : ([] : List Char) = closers [] := rfl
   have h1 : [k] ≠ [] := by simp
@@ -154,19 +168,19 @@ theorem skipLen_group (k : BK) (i : Frag) (rest : Str) (hi : Frag.Clean i) :
   simp
   omega
 
-/-- … and on the opening quote of a clean string right behind the closing quote. -/
-theorem skipLen_str (q : QK) (b rest : Str) (hb : ∀ c ∈ b, has Frag.special c = false) :
+/-- … and on the opening quote of a simple string right behind the closing quote. -/
+theorem skipLen_str (q : QK) (b rest : Str) (hb : ∀ c ∈ b, c ≠ q.ch) :
     skipLen allPairs [] (q.ch :: (b ++ q.ch :: rest)) = b.length + 2 := by
   have h0 : ([] : List Char) = closers [] := rfl
   have h1 : [q.ch] ≠ [] := by simp
   rw [skipLen_cons, h0, skipStep_quote_push]
   simp only [List.isEmpty_cons, Bool.false_eq_true, if_false]
   have : closers [] = [] := rfl
-  rw [this, skipLen_body _ h1 b _ hb, skipLen_cons, skipStep_quote_pop]
+  rw [this, skipLen_body q _ b _ hb, skipLen_cons, skipStep_quote_pop]
   simp
   omega
 
-/-! ### `break_separator` on a clean fragment -/
+/-! ### `break_separator` on a fragment -/
 
 /-- accumulator form of `sepSpec`: `cur` is the text of the current piece so far (`text[begin:index]`). -/
 def specGo (d : Char) : Frag → Str → List Str
@@ -193,7 +207,7 @@ theorem slice_prefix (pre post : Str) (b : Nat) : slice (pre ++ post) b pre.leng
 
 theorem sepLoop_frag (d : Char) (f : Frag) :
     ∀ (pre : Str) (begin : Nat) (blocks : List Str) (fuel : Nat),
-      begin ≤ pre.length → f.render.length < fuel → Frag.Clean f →
+      begin ≤ pre.length → f.render.length < fuel → Frag.Simple f →
       sepLoop (pre ++ f.render) [d] fuel f.render pre.length begin blocks
         = .ok (blocks ++ specGo d f (pre.drop begin)) := by
   induction f with
@@ -211,7 +225,7 @@ theorem sepLoop_frag (d : Char) (f : Frag) :
   | atom c r ih =>
     intro pre begin blocks fuel hb hf hc
     obtain ⟨n, rfl⟩ : ∃ n, fuel = n + 1 := ⟨fuel - 1, by omega⟩
-    rw [clean_atom] at hc
+    rw [simple_atom] at hc
     have htext : pre ++ (Frag.atom c r).render = (pre ++ [c]) ++ r.render := by simp [Frag.render]
     have hlen : pre.length + 1 = (pre ++ [c]).length := by simp
     simp only [Frag.render, List.length_cons] at hf
@@ -249,8 +263,8 @@ theorem sepLoop_frag (d : Char) (f : Frag) :
   | str q b r ih =>
     intro pre begin blocks fuel hb hf hc
     obtain ⟨n, rfl⟩ : ∃ n, fuel = n + 1 := ⟨fuel - 1, by omega⟩
-    rw [clean_str] at hc
-    have hbody : ∀ c ∈ b, has Frag.special c = false := fun c h => (hc.1 c h).2
+    rw [simple_str] at hc
+    have hbody : ∀ c ∈ b, c ≠ q.ch := hc.1
     generalize hg : q.ch :: (b ++ [q.ch]) = g
     have hglen : g.length = b.length + 2 := by subst hg; simp
     have hrend : (Frag.str q b r).render = g ++ r.render := by subst hg; simp [Frag.render]
@@ -272,7 +286,7 @@ theorem sepLoop_frag (d : Char) (f : Frag) :
   | group k i r ihi ihr =>
     intro pre begin blocks fuel hb hf hc
     obtain ⟨n, rfl⟩ : ∃ n, fuel = n + 1 := ⟨fuel - 1, by omega⟩
-    rw [clean_group] at hc
+    rw [simple_group] at hc
     generalize hg : k.open :: (i.render ++ [k.close]) = g
     have hglen : g.length = i.render.length + 2 := by subst hg; simp
     have hrend : (Frag.group k i r).render = g ++ r.render := by subst hg; simp [Frag.render]
@@ -292,7 +306,7 @@ theorem sepLoop_frag (d : Char) (f : Frag) :
     subst hg
     simp [specGo]
 
-theorem breakSeparator_clean (d : Char) (f : Frag) (hf : Frag.Clean f) :
+theorem breakSeparator_clean (d : Char) (f : Frag) (hf : Frag.Simple f) :
     breakSeparator f.render [d] = .ok (specGo d f []) := by
   have := sepLoop_frag d f [] 0 [] (f.render.length + 1) (by simp) (by omega) hf
   simpa [breakSeparator] using this
@@ -400,11 +414,11 @@ theorem join_topSplit (d : Char) (f : Frag) : Frag.join d (f.topSplit d) = f := 
     obtain ⟨p, ps, hps⟩ := List.exists_cons_of_ne_nil (topSplit_ne_nil d r)
     simp only [Frag.topSplit, hps]; rw [join_cons_group, ← hps, ih]
 
-theorem clean_topSplit (d : Char) (f : Frag) (hf : Frag.Clean f) : ∀ p ∈ f.topSplit d, Frag.Clean p := by
+theorem simple_topSplit (d : Char) (f : Frag) (hf : Frag.Simple f) : ∀ p ∈ f.topSplit d, Frag.Simple p := by
   induction f with
   | nil => simp [Frag.topSplit]
   | atom c r ih =>
-    rw [clean_atom] at hf
+    rw [simple_atom] at hf
     obtain ⟨p, ps, hps⟩ := List.exists_cons_of_ne_nil (topSplit_ne_nil d r)
     have ih := ih hf.2
     rw [hps] at ih
@@ -418,10 +432,10 @@ theorem clean_topSplit (d : Char) (f : Frag) (hf : Frag.Clean f) : ∀ p ∈ f.t
     · intro x hx
       simp only [List.mem_cons] at hx ih
       rcases hx with rfl | hx
-      · rw [clean_atom]; exact ⟨hf.1, ih p (Or.inl rfl)⟩
+      · rw [simple_atom]; exact ⟨hf.1, ih p (Or.inl rfl)⟩
       · exact ih x (Or.inr hx)
   | str q b r ih =>
-    rw [clean_str] at hf
+    rw [simple_str] at hf
     obtain ⟨p, ps, hps⟩ := List.exists_cons_of_ne_nil (topSplit_ne_nil d r)
     have ih := ih hf.2
     rw [hps] at ih
@@ -429,10 +443,10 @@ theorem clean_topSplit (d : Char) (f : Frag) (hf : Frag.Clean f) : ∀ p ∈ f.t
     intro x hx
     simp only [List.mem_cons] at hx ih
     rcases hx with rfl | hx
-    · rw [clean_str]; exact ⟨hf.1, ih p (Or.inl rfl)⟩
+    · rw [simple_str]; exact ⟨hf.1, ih p (Or.inl rfl)⟩
     · exact ih x (Or.inr hx)
   | group k i r _ ih =>
-    rw [clean_group] at hf
+    rw [simple_group] at hf
     obtain ⟨p, ps, hps⟩ := List.exists_cons_of_ne_nil (topSplit_ne_nil d r)
     have ih := ih hf.2
     rw [hps] at ih
@@ -440,7 +454,7 @@ theorem clean_topSplit (d : Char) (f : Frag) (hf : Frag.Clean f) : ∀ p ∈ f.t
     intro x hx
     simp only [List.mem_cons] at hx ih
     rcases hx with rfl | hx
-    · rw [clean_group]; exact ⟨hf.1, ih p (Or.inl rfl)⟩
+    · rw [simple_group]; exact ⟨hf.1, ih p (Or.inl rfl)⟩
     · exact ih x (Or.inr hx)
 
 /-! ### `strip(' ')` of a rendered fragment is a rendered fragment -/
@@ -516,30 +530,30 @@ theorem render_rstrip (f : Frag) : f.rstrip.render = Str.rstripBy (fun c => c = 
     simp only [List.cons_append] at this
     simp [Frag.rstrip, Frag.render, this, ih]
 
-theorem clean_lstrip (f : Frag) (hf : Frag.Clean f) : Frag.Clean f.lstrip := by
+theorem simple_lstrip (f : Frag) (hf : Frag.Simple f) : Frag.Simple f.lstrip := by
   induction f with
   | nil => simp [Frag.lstrip]
   | atom c r ih =>
-    rw [clean_atom] at hf
+    rw [simple_atom] at hf
     by_cases h : c = ' '
     · simpa [Frag.lstrip, h] using ih hf.2
     · simp [Frag.lstrip, h, hf.1, hf.2]
   | str q b r _ => simpa [Frag.lstrip] using hf
   | group k i r _ _ => simpa [Frag.lstrip] using hf
 
-theorem clean_rstrip (f : Frag) (hf : Frag.Clean f) : Frag.Clean f.rstrip := by
+theorem simple_rstrip (f : Frag) (hf : Frag.Simple f) : Frag.Simple f.rstrip := by
   induction f with
   | nil => simp [Frag.rstrip]
   | atom c r ih =>
-    rw [clean_atom] at hf
+    rw [simple_atom] at hf
     simp only [Frag.rstrip]
     split
     · simp
-    · rw [clean_atom]; exact ⟨hf.1, ih hf.2⟩
-  | str q b r ih => rw [clean_str] at hf; simp only [Frag.rstrip]; rw [clean_str]; exact ⟨hf.1, ih hf.2⟩
-  | group k i r _ ih => rw [clean_group] at hf; simp only [Frag.rstrip]; rw [clean_group]; exact ⟨hf.1, ih hf.2⟩
+    · rw [simple_atom]; exact ⟨hf.1, ih hf.2⟩
+  | str q b r ih => rw [simple_str] at hf; simp only [Frag.rstrip]; rw [simple_str]; exact ⟨hf.1, ih hf.2⟩
+  | group k i r _ ih => rw [simple_group] at hf; simp only [Frag.rstrip]; rw [simple_group]; exact ⟨hf.1, ih hf.2⟩
 
-/-- A stripped piece of a clean fragment is again (the text of) a clean fragment. -/
+/-- A stripped piece of a fragment is again (the text of) a fragment. -/
 theorem strip_render (f : Frag) : strip f.render = f.lstrip.rstrip.render := by
   simp [strip, Str.stripBy, render_rstrip, render_lstrip]
 
@@ -738,73 +752,6 @@ theorem find_char (c : Char) (pre rest : Str) (h : ∀ x ∈ pre, x ≠ c) :
     Str.find (pre ++ c :: rest) [c] = some pre.length := by
   simpa [Str.find] using find_go_char c pre rest h 0
 
-theorem decoParse_clean (path : Str) (args : Frag) (hp : ∀ x ∈ path, x ≠ '(') (ha : Frag.Clean args) :
-    decoParse (path ++ '(' :: (args.render ++ [')']))
-      = .ok (path, decoArgs (sepSpec ',' args), args.render) := by
-  have h1 : slice (path ++ '(' :: (args.render ++ [')'])) 0 path.length = path := slice_front _ _
-  have h2 : slice (path ++ '(' :: (args.render ++ [')'])) (path.length + 1) ((path ++ '(' :: (args.render ++ [')'])).length - 1)
-      = args.render := by
-    have : (path ++ '(' :: (args.render ++ [')'])).length - 1 = path.length + 1 + args.render.length := by
-      simp; omega
-    rw [this]; exact slice_middle _ _ _ _
-  simp only [decoParse, find_char '(' path _ hp, h1, h2, breakSeparator_clean ',' args ha, specGo_nil_eq_sepSpec]
-  rfl
-
-/-! splitting at `=` and joining again -/
-
-theorem splitOn_ne_nil (d : Char) (s : Str) : Str.splitOn d s ≠ [] := by
-  induction s with
-  | nil => simp [Str.splitOn]
-  | cons c cs ih =>
-    simp only [Str.splitOn]
-    split
-    · simp
-    · split <;> simp
-
-theorem join_splitOn (d : Char) (s : Str) : Str.join [d] (Str.splitOn d s) = s := by
-  induction s with
-  | nil => simp [Str.splitOn, Str.join]
-  | cons c cs ih =>
-    obtain ⟨p, ps, hps⟩ := List.exists_cons_of_ne_nil (splitOn_ne_nil d cs)
-    simp only [Str.splitOn]
-    by_cases h : c = d
-    · rw [if_pos h, hps, Str.join, ← hps, ih]; simp [h]
-    · rw [if_neg h, hps]
-      simp only []
-      rw [hps] at ih
-      cases ps with
-      | nil => simp only [Str.join] at ih ⊢; rw [ih]
-      | cons p' ps' => simp only [Str.join, List.cons_append] at ih ⊢; rw [ih]
-
-theorem splitOn_length (d : Char) (s : Str) : (Str.splitOn d s).length = Str.count d s + 1 := by
-  induction s with
-  | nil => simp [Str.splitOn, Str.count]
-  | cons c cs ih =>
-    obtain ⟨p, ps, hps⟩ := List.exists_cons_of_ne_nil (splitOn_ne_nil d cs)
-    simp only [Str.splitOn]
-    by_cases h : c = d
-    · rw [if_pos h]; simp [Str.count, h] at ih ⊢; omega
-    · rw [if_neg h, hps]; rw [hps] at ih; simp [Str.count, h] at ih ⊢; omega
-
-/-- The (key, value) stored for an argument piece puts the piece back together: `label=value` when the piece contains
-    `=`, otherwise the piece itself under its position. -/
-theorem decoKV_reassemble (i : Nat) (arg : Str) :
-    (Str.count '=' arg > 0 → (decoKV i arg).1 ++ '=' :: (decoKV i arg).2 = arg) ∧
-    (Str.count '=' arg = 0 → decoKV i arg = (Str.natToDec i, arg)) := by
-  constructor
-  · intro h
-    have hl := splitOn_length '=' arg
-    have hj := join_splitOn '=' arg
-    simp only [decoKV, h, if_true]
-    match hs : Str.splitOn '=' arg with
-    | [] => exact absurd hs (splitOn_ne_nil _ _)
-    | [x] => rw [hs] at hl; simp at hl; omega
-    | label :: r :: rs =>
-      rw [hs] at hj
-      simpa [Str.join] using hj
-  · intro h
-    simp [decoKV, h]
-
 /-! ### `Param.parse`: splitting a joined fragment gives the parts back -/
 
 theorem append_assoc (f g h : Frag) : ((f ++ g) ++ h : Frag) = f ++ (g ++ h) := by
@@ -835,15 +782,15 @@ theorem noTop_join (d d' : Char) (hd : d' ≠ d) (fs : List Frag) (h : ∀ f ∈
       have := ih (fun x hx => h x (by simp [hx]))
       simp [Frag.join, noTop_append, Frag.noTop, h f (by simp), hd, this]
 
-theorem clean_append (f g : Frag) (hf : Frag.Clean f) (hg : Frag.Clean g) : Frag.Clean (f ++ g) := by
+theorem simple_append (f g : Frag) (hf : Frag.Simple f) (hg : Frag.Simple g) : Frag.Simple (f ++ g) := by
   induction f with
   | nil => simpa using hg
-  | atom c r ih => rw [clean_atom] at hf; simp [hf.1, ih hf.2]
-  | str q b r ih => rw [clean_str] at hf; simp only [str_append, clean_str]; exact ⟨hf.1, ih hf.2⟩
-  | group k i r _ ih => rw [clean_group] at hf; simp only [group_append, clean_group]; exact ⟨hf.1, ih hf.2⟩
+  | atom c r ih => rw [simple_atom] at hf; simp [hf.1, ih hf.2]
+  | str q b r ih => rw [simple_str] at hf; simp only [str_append, simple_str]; exact ⟨hf.1, ih hf.2⟩
+  | group k i r _ ih => rw [simple_group] at hf; simp only [group_append, simple_group]; exact ⟨hf.1, ih hf.2⟩
 
-theorem clean_join (d : Char) (hd : has Frag.special d = false) (fs : List Frag) (h : ∀ f ∈ fs, Frag.Clean f) :
-    Frag.Clean (Frag.join d fs) := by
+theorem simple_join (d : Char) (hd : has Frag.special d = false) (fs : List Frag) (h : ∀ f ∈ fs, Frag.Simple f) :
+    Frag.Simple (Frag.join d fs) := by
   induction fs with
   | nil => simp [Frag.join]
   | cons f fs ih =>
@@ -852,7 +799,7 @@ theorem clean_join (d : Char) (hd : has Frag.special d = false) (fs : List Frag)
     | cons g gs =>
       have := ih (fun x hx => h x (by simp [hx]))
       simp only [Frag.join]
-      exact clean_append _ _ (h f (by simp)) (by rw [clean_atom]; exact ⟨hd, this⟩)
+      exact simple_append _ _ (h f (by simp)) (by rw [simple_atom]; exact ⟨hd, this⟩)
 
 theorem topSplit_noTop (d : Char) (f : Frag) (h : Frag.noTop d f = true) : f.topSplit d = [f] := by
   induction f with
@@ -963,8 +910,8 @@ theorem strip_snoc_blank (s : Str) : strip (s ++ [' ']) = strip s := by
   · simp [h, Str.rstripBy, Str.lstripBy]
   · simp [h, Str.rstripBy, Str.lstripBy]
 
-/-- the conditions on a type token / the parameter name: a non-empty clean fragment without top-level blank or `=` -/
-def ParamToken (t : Frag) : Prop := Frag.Clean t ∧ Frag.noTop ' ' t = true ∧ Frag.noTop '=' t = true ∧ t ≠ .nil
+/-- the conditions on a type token / the parameter name: a non-empty fragment without top-level blank or `=` -/
+def ParamToken (t : Frag) : Prop := Frag.Simple t ∧ Frag.noTop ' ' t = true ∧ Frag.noTop '=' t = true ∧ t ≠ .nil
 
 instance (t : Frag) : Decidable (ParamToken t) := by unfold ParamToken; infer_instance
 
@@ -973,7 +920,7 @@ theorem eq_plain : has Frag.special '=' = false := by decide
 
 theorem sepSpec_tokens (toks : List Frag) (hne : toks ≠ []) (h : ∀ t ∈ toks, ParamToken t) :
     breakSeparator (Frag.join ' ' toks).render [' '] = .ok (toks.map Frag.render) := by
-  have hclean : Frag.Clean (Frag.join ' ' toks) := clean_join ' ' blank_plain toks (fun t ht => (h t ht).1)
+  have hclean : Frag.Simple (Frag.join ' ' toks) := simple_join ' ' blank_plain toks (fun t ht => (h t ht).1)
   have hnil : Frag.join ' ' toks ≠ .nil :=
     join_ne_nil ' ' toks hne (fun l hl => (h l (List.mem_of_getLast? hl)).2.2.2)
   rw [breakSeparator_clean ' ' _ hclean, specGo_nil_eq_sepSpec, sepSpec, if_neg hnil,
@@ -983,67 +930,205 @@ theorem sepSpec_tokens (toks : List Frag) (hne : toks ≠ []) (h : ∀ t ∈ tok
   intro t ht
   exact strip_noTop t (h t ht).2.1
 
-theorem paramParse_tail (toks : List Frag) (nm : Frag) (dv : Str) :
-    (match ((toks ++ [nm]).map Frag.render).getLast? with
-      | none => (Except.error Err.IndexError : Except Err (Str × Str × Str))
-      | some symbol => .ok (Str.join [' '] ((toks ++ [nm]).map Frag.render).dropLast, symbol, dv))
-      = .ok (Str.join [' '] (toks.map Frag.render), nm.render, dv) := by
-  simp
+
+/-! ### `str.index` on the texts that occur -/
+
+theorem startsWith_append (p r : Str) : Str.startsWith (p ++ r) p = true := by
+  induction p with
+  | nil => cases r <;> simp [Str.startsWith]
+  | cons c p ih => simp [Str.startsWith, ih]
+
+theorem find_prefix (p r : Str) : Str.find (p ++ r) p = some 0 := by
+  unfold Str.find
+  cases h : p ++ r with
+  | nil =>
+    have : p = [] := by cases p <;> simp_all
+    simp [Str.find.go, this]
+  | cons c cs =>
+    rw [Str.find.go, ← h, startsWith_append]; simp
+
+theorem indexFrom_prefix (p r : Str) : indexFrom (p ++ r) p 0 = .ok 0 := by
+  simp [indexFrom, find_prefix]
+
+theorem indexFrom_char (c : Char) (a gap rest : Str) (h : ∀ x ∈ gap, x ≠ c) :
+    indexFrom (a ++ (gap ++ c :: rest)) [c] a.length = .ok (a.length + gap.length) := by
+  simp only [indexFrom, List.drop_left, find_char c gap rest h]
+  congr 1; omega
+
+theorem rstrip_decomp (s : Str) :
+    ∃ n, s = Str.rstripBy (fun c => decide (c = ' ')) s ++ List.replicate n ' ' := by
+  induction s with
+  | nil => exact ⟨0, by simp [rstripBy_nil]⟩
+  | cons c s ih =>
+    obtain ⟨n, hn⟩ := ih
+    rw [rstripBy_cons]
+    by_cases h : Str.rstripBy (fun c => decide (c = ' ')) s = [] ∧ (fun c => decide (c = ' ')) c = true
+    · rw [if_pos h]
+      refine ⟨n + 1, ?_⟩
+      have hc : c = ' ' := by simpa using h.2
+      rw [h.1] at hn
+      simp only [List.nil_append] at hn ⊢
+      rw [hn, hc, List.replicate_succ]
+    · rw [if_neg h]
+      exact ⟨n, by simp only [List.cons_append]; rw [← hn]⟩
+
+theorem natToDec_zero : Str.natToDec 0 = ['0'] := by
+  rw [Str.natToDec]; simp [Str.digitChar]
+
+/-! ### `DecoratorHelper._parse` -/
+
+theorem breakSeparator_simple (d : Char) (f : Frag) (hf : Frag.Simple f) :
+    breakSeparator f.render [d] = .ok (sepSpec d f) := by
+  rw [breakSeparator_clean d f hf, specGo_nil_eq_sepSpec]
+
+theorem decoParse_simple (path : Str) (args : Frag) (hp : ∀ x ∈ path, x ≠ '(') (ha : Frag.Simple args) :
+    decoParse (path ++ '(' :: (args.render ++ [')']))
+      = (decoArgs (sepSpec ',' args)).bind fun a => .ok (path, a, args.render) := by
+  have h1 : slice (path ++ '(' :: (args.render ++ [')'])) 0 path.length = path := slice_front _ _
+  have h2 : slice (path ++ '(' :: (args.render ++ [')'])) (path.length + 1) ((path ++ '(' :: (args.render ++ [')'])).length - 1)
+      = args.render := by
+    have : (path ++ '(' :: (args.render ++ [')'])).length - 1 = path.length + 1 + args.render.length := by
+      simp; omega
+    rw [this]; exact slice_middle _ _ _ _
+  simp only [decoParse, find_char '(' path _ hp, h1, h2, breakSeparator_simple ',' args ha]
+  rfl
+
+/-- An argument piece without a top-level `=` is stored verbatim under its position — whatever `=` occur nested inside. -/
+theorem decoKV_positional (i : Nat) (g : Frag) (hg : Frag.Simple g) (hno : Frag.noTop '=' g = true) :
+    decoKV i g.render = .ok (Str.natToDec i, g.render) := by
+  rw [decoKV, breakSeparator_simple '=' g hg, sepSpec, topSplit_noTop '=' g hno]
+  by_cases h : g = .nil <;> simp [h, Except.bind]
+
+/-- An argument piece `label = value` (first top-level `=`; the label part without leading blank): key and value are the
+    texts on both sides of that `=`, exactly. -/
+theorem decoKV_labelled (i : Nat) (l v : Frag) (hl : Frag.Simple l) (hv : Frag.Simple v)
+    (hno : Frag.noTop '=' l = true) (hlead : l.lstrip = l) (hvn : v ≠ .nil) :
+    decoKV i (l ++ Frag.atom '=' v : Frag).render = .ok (l.render, v.render) := by
+  have hs : Frag.Simple (l ++ Frag.atom '=' v : Frag) := simple_append _ _ hl (by simp [eq_plain, hv])
+  obtain ⟨p, ps, hps⟩ := List.exists_cons_of_ne_nil (topSplit_ne_nil '=' v)
+  have hfirst : strip l.render = Str.rstripBy (fun c => decide (c = ' ')) l.render := by
+    have := render_lstrip l
+    rw [hlead] at this
+    simp only [strip, Str.stripBy]
+    rw [← this]
+  obtain ⟨n, hn⟩ := rstrip_decomp l.render
+  generalize hfst : Str.rstripBy (fun c => decide (c = ' ')) l.render = first at hn hfirst
+  have hrender : (l ++ Frag.atom '=' v : Frag).render = first ++ (List.replicate n ' ' ++ '=' :: v.render) := by
+    rw [render_append, hn]; simp [Frag.render]
+  have hgap : ∀ x ∈ List.replicate n ' ', x ≠ '=' := by
+    intro x hx; rw [List.mem_replicate] at hx; rw [hx.2]; decide
+  rw [decoKV, breakSeparator_simple '=' _ hs, sepSpec, if_neg (append_ne_nil_right _ _ (by simp)),
+    topSplit_append_atom '=' l v hno hvn, hps]
+  simp only [List.map_cons, hfirst, Except.bind]
+  rw [hrender, indexFrom_prefix]
+  simp only [Nat.zero_add]
+  rw [indexFrom_char '=' first (List.replicate n ' ') v.render hgap]
+  simp only [hn]
+  congr 2
+  · have : first.length + (List.replicate n ' ').length = (first ++ List.replicate n ' ').length := by simp
+    rw [this, ← List.append_assoc, slice_front]
+  · have : first.length + (List.replicate n ' ').length + 1 = (first ++ List.replicate n ' ' ++ ['=']).length := by simp; omega
+    rw [this]
+    have e : first ++ (List.replicate n ' ' ++ '=' :: v.render) = (first ++ List.replicate n ' ' ++ ['=']) ++ v.render := by simp
+    rw [e, List.drop_left]
+
+
+theorem noTop_lstrip (d : Char) (f : Frag) (h : Frag.noTop d f = true) : Frag.noTop d f.lstrip = true := by
+  induction f with
+  | atom c r ih =>
+    simp only [Frag.noTop, Bool.and_eq_true] at h
+    by_cases hc : c = ' ' <;> simp [Frag.lstrip, hc, Frag.noTop, ih h.2, h.2] <;> simpa [hc] using h.1
+  | _ => simpa [Frag.lstrip] using h
+
+theorem noTop_rstrip (d : Char) (f : Frag) (h : Frag.noTop d f = true) : Frag.noTop d f.rstrip = true := by
+  induction f with
+  | nil => rfl
+  | atom c r ih =>
+    simp only [Frag.noTop, Bool.and_eq_true] at h
+    simp only [Frag.rstrip]
+    split
+    · rfl
+    · simp [Frag.noTop, h.1, ih h.2]
+  | str q b r ih => simp only [Frag.noTop] at h; simp [Frag.rstrip, Frag.noTop, ih h]
+  | group k i r _ ih => simp only [Frag.noTop] at h; simp [Frag.rstrip, Frag.noTop, ih h]
+
+/-- A single positional argument (no top-level `,` or `=`) is stored verbatim under position 0. -/
+theorem decoParse_positional (path : Str) (v : Frag) (hp : ∀ x ∈ path, x ≠ '(') (hv : Frag.Simple v)
+    (hc : Frag.noTop ',' v = true) (he : Frag.noTop '=' v = true) (hne : v ≠ .nil) :
+    decoParse (path ++ '(' :: (v.render ++ [')'])) = .ok (path, [(['0'], strip v.render)], v.render) := by
+  rw [decoParse_simple path v hp hv, sepSpec, if_neg hne, topSplit_noTop ',' v hc]
+  simp only [List.map_cons, List.map_nil, decoArgs, decoArgsFrom, strip_render]
+  rw [decoKV_positional 0 _ (simple_rstrip _ (simple_lstrip _ hv)) (noTop_rstrip _ _ (noTop_lstrip _ _ he))]
+  simp [Except.bind, dictSet, natToDec_zero]
+
+/-! ### `Param.parse` -/
+
+theorem bind_ok {ε α β : Type} (a : α) (f : α → Except ε β) : (Except.ok a : Except ε α).bind f = f a := rfl
+
+theorem paramFinish_tokens (toks : List Frag) (nm : Frag) (dv : Str) :
+    paramFinish ((toks ++ [nm]).map Frag.render) dv = .ok (Str.join [' '] (toks.map Frag.render), nm.render, dv) := by
+  simp [paramFinish]
 
 theorem paramParse_plain (ts : List Frag) (nm : Frag) (h : ∀ t ∈ ts ++ [nm], ParamToken t) :
     paramParse (Frag.join ' ' (ts ++ [nm])).render
       = .ok (Str.join [' '] (ts.map Frag.render), nm.render, []) := by
   have hne : ts ++ [nm] ≠ [] := by simp
-  have hP : Frag.Clean (Frag.join ' ' (ts ++ [nm])) := clean_join ' ' blank_plain _ (fun t ht => (h t ht).1)
+  have hP : Frag.Simple (Frag.join ' ' (ts ++ [nm])) := simple_join ' ' blank_plain _ (fun t ht => (h t ht).1)
   have hnil : Frag.join ' ' (ts ++ [nm]) ≠ .nil :=
     join_ne_nil ' ' _ hne (fun l hl => (h l (List.mem_of_getLast? hl)).2.2.2)
   have hno : Frag.noTop '=' (Frag.join ' ' (ts ++ [nm])) = true :=
     noTop_join '=' ' ' (by decide) _ (fun t ht => (h t ht).2.2.1)
   have hstrip := strip_join (ts ++ [nm]) hne (fun t ht => ⟨(h t ht).2.1, (h t ht).2.2.2⟩)
   have h1 : breakSeparator (Frag.join ' ' (ts ++ [nm])).render ['='] = .ok [(Frag.join ' ' (ts ++ [nm])).render] := by
-    rw [breakSeparator_clean '=' _ hP, specGo_nil_eq_sepSpec, sepSpec, if_neg hnil, topSplit_noTop '=' _ hno]
+    rw [breakSeparator_simple '=' _ hP, sepSpec, if_neg hnil, topSplit_noTop '=' _ hno]
     simp only [List.map_cons, List.map_nil]
     rw [strip_render, hstrip.1, hstrip.2]
-  simp only [paramParse, h1]
-  show (do let ts' ← breakSeparator (Frag.join ' ' (ts ++ [nm])).render [' ']; _) = _
-  rw [sepSpec_tokens (ts ++ [nm]) hne h]
-  exact paramParse_tail ts nm []
+  rw [paramParse, h1, bind_ok, paramSplit, bind_ok, sepSpec_tokens (ts ++ [nm]) hne h, bind_ok]
+  exact paramFinish_tokens ts nm []
 
+/-- `type… name = default` for *every* default that is a fragment with simple strings — also one with top-level `=`. -/
 theorem paramParse_default (ts : List Frag) (nm df : Frag) (h : ∀ t ∈ ts ++ [nm], ParamToken t)
-    (hd : Frag.Clean df) (hde : Frag.noTop '=' df = true) :
+    (hd : Frag.Simple df) :
     paramParse ((Frag.join ' ' (ts ++ [nm])).render ++ ' ' :: '=' :: ' ' :: df.render)
       = .ok (Str.join [' '] (ts.map Frag.render), nm.render, strip df.render) := by
   have hne : ts ++ [nm] ≠ [] := by simp
-  generalize hPdef : Frag.join ' ' (ts ++ [nm]) = P
-  have hP : Frag.Clean P := by subst hPdef; exact clean_join ' ' blank_plain _ (fun t ht => (h t ht).1)
+  have htok := sepSpec_tokens (ts ++ [nm]) hne h
+  generalize hPdef : Frag.join ' ' (ts ++ [nm]) = P at htok
+  have hP : Frag.Simple P := by subst hPdef; exact simple_join ' ' blank_plain _ (fun t ht => (h t ht).1)
   have hno : Frag.noTop '=' P = true := by
     subst hPdef; exact noTop_join '=' ' ' (by decide) _ (fun t ht => (h t ht).2.2.1)
   have hstrip : P.lstrip = P ∧ P.rstrip = P := by
     subst hPdef; exact strip_join (ts ++ [nm]) hne (fun t ht => ⟨(h t ht).2.1, (h t ht).2.2.2⟩)
-  -- the whole parameter text as a fragment
   have hF : P.render ++ ' ' :: '=' :: ' ' :: df.render
       = ((P ++ Frag.atom ' ' .nil) ++ Frag.atom '=' (Frag.atom ' ' df) : Frag).render := by
     simp [render_append, Frag.render]
-  have hFclean : Frag.Clean ((P ++ Frag.atom ' ' .nil) ++ Frag.atom '=' (Frag.atom ' ' df) : Frag) := by
-    apply clean_append
-    · exact clean_append _ _ hP (by simp [blank_plain])
+  have hFs : Frag.Simple ((P ++ Frag.atom ' ' .nil) ++ Frag.atom '=' (Frag.atom ' ' df) : Frag) := by
+    apply simple_append
+    · exact simple_append _ _ hP (by simp [blank_plain])
     · simp [eq_plain, blank_plain, hd]
-  have hsplit : ((P ++ Frag.atom ' ' .nil) ++ Frag.atom '=' (Frag.atom ' ' df) : Frag).topSplit '='
-      = [P ++ Frag.atom ' ' .nil, Frag.atom ' ' df] := by
-    rw [topSplit_append_atom '=' _ _ (by simp [noTop_append, hno, Frag.noTop]) (by simp),
-      topSplit_noTop '=' _ (by simp [Frag.noTop, hde])]
-  have h1 : breakSeparator (P.render ++ ' ' :: '=' :: ' ' :: df.render) ['=']
-      = .ok [P.render, strip df.render] := by
-    rw [hF, breakSeparator_clean '=' _ hFclean, specGo_nil_eq_sepSpec, sepSpec,
-      if_neg (append_ne_nil_right _ _ (by simp)), hsplit]
-    simp only [List.map_cons, List.map_nil, render_append, Frag.render, strip_snoc_blank, strip_blank_cons]
+  obtain ⟨x, xs, hx⟩ := List.exists_cons_of_ne_nil (topSplit_ne_nil '=' (Frag.atom ' ' df))
+  have h1 : ∃ y ys, breakSeparator (P.render ++ ' ' :: '=' :: ' ' :: df.render) ['='] = .ok (P.render :: y :: ys) := by
+    refine ⟨strip x.render, xs.map fun p => strip p.render, ?_⟩
+    rw [hF, breakSeparator_simple '=' _ hFs, sepSpec, if_neg (append_ne_nil_right _ _ (by simp)),
+      topSplit_append_atom '=' _ _ (by simp [noTop_append, hno, Frag.noTop]) (by simp), hx]
+    simp only [List.map_cons, render_append, Frag.render, strip_snoc_blank]
     rw [strip_render P, hstrip.1, hstrip.2]
-  simp only [paramParse, h1]
-  show (do let ts' ← breakSeparator P.render [' ']; _) = _
-  subst hPdef
-  rw [sepSpec_tokens (ts ++ [nm]) hne h]
-  exact paramParse_tail ts nm _
-
+  obtain ⟨y, ys, h1⟩ := h1
+  have hgap : ∀ c ∈ [' '], c ≠ '=' := by decide
+  have hidx := indexFrom_char '=' P.render [' '] (' ' :: df.render) hgap
+  simp only [List.cons_append, List.nil_append, List.length_cons, List.length_nil] at hidx
+  have hdrop : (P.render ++ ' ' :: '=' :: ' ' :: df.render).drop (P.render.length + (0 + 1) + 1) = ' ' :: df.render := by
+    have e : P.render ++ ' ' :: '=' :: ' ' :: df.render = (P.render ++ [' ', '=']) ++ (' ' :: df.render) := by simp
+    have l : P.render.length + (0 + 1) + 1 = (P.render ++ [' ', '=']).length := by simp
+    rw [e, l, List.drop_left]
+  have hsplit : paramSplit (P.render ++ ' ' :: '=' :: ' ' :: df.render) (P.render :: y :: ys)
+      = .ok (P.render, strip df.render) := by
+    have hb : ∀ {β : Type} (a : Nat) (f : Nat → Except Err β), (Except.ok a : Except Err Nat) >>= f = f a := fun _ _ => rfl
+    simp only [paramSplit, indexFrom_prefix, hb, Nat.zero_add]
+    have hidx' : indexFrom (P.render ++ ' ' :: '=' :: ' ' :: df.render) ['='] P.render.length = .ok (P.render.length + (0 + 1)) := hidx
+    rw [hidx', hb, hdrop, strip_blank_cons]
+  rw [paramParse, h1, bind_ok, hsplit, bind_ok, htok, bind_ok]
+  exact paramFinish_tokens ts nm _
 
 /-! ### the fuel of `break_separator` is never exhausted -/
 
